@@ -795,6 +795,8 @@ pub fn run_c38(batch: &str, tape: &mut Tape, rep: &mut Report) {
     let net = new_net(seed ^ 0xc38);
     net.lock().unwrap().cfg.max_latency_ms = *tape.pick(&[0u64, 5, 50]);
     net.lock().unwrap().wcfg.max_latency_ms = 20;
+    // in the all-ops batches individual worker calls may fail, so groups end up partially running
+    if !quiet { net.lock().unwrap().wcfg.http_error_permille = *tape.pick(&[0u64, 100, 250]); }
     varpulis_cluster::verif_http::set_transport(Some(transport(net.clone())));
     let key = "admin-key".to_string();
     struct Out { reverted: Vec<(String, String)>, log: Vec<String>, probes: Vec<&'static str>, ok_ops: u64, judged: u64, states: Vec<u64> }
